@@ -108,6 +108,32 @@ var restMethods = []restCase{
 	{"sim", "RestAll"},
 }
 
+// genRESTClientRPC draws one well-formed REST request for a bound method of cfg (rendered by the reference encoder from a
+// seeded message) and a one-message answer.
+func genRESTClientRPC(c *Chooser, cfg *ConfigPlan, rcase restCase) *RPCPlan {
+	b := bindingOf(cfg, rcase.schema, rcase.method)
+	if b == nil {
+		return nil
+	}
+	mo := &MsgGenOpts{MaxDepth: 2, MaxBytes: 24, SingleEntry: true}
+	msg := genMessage(c, b.method.Input(), mo, 0)
+	sanitizeForBinding(c, b, msg.ProtoReflect())
+	resp := genMessage(c, b.method.Output(), mo, 0)
+	req, ok := refEncodeRequest(b, msg, c.Bool())
+	if !ok {
+		return nil
+	}
+	cp := ClientPlan{Form: FormREST, HTTP: Pick(c, 1, 2), Service: rcase.schema, Method: rcase.method, Codec: "json", HTTPMethod: req.Method, Path: req.Path, RawQuery: req.RawQuery}
+	if req.HasBody {
+		cp.RestJSON = req.Body
+		if cp.RestJSON == nil {
+			cp.RestJSON = []byte{}
+		}
+		cp.ContentType = req.ContentType
+	}
+	return &RPCPlan{Client: cp, Backend: BackendPlan{Resp: RespPlan{Msgs: []MsgSpec{{Data: canonBytes(resp)}}, TrailerStyle: "prefix"}}}
+}
+
 func bindingOf(cfg *ConfigPlan, schema, method string) *refBinding {
 	for _, b := range refTable(cfg) {
 		if b.svc.Schema == schema && string(b.method.Name()) == method {
@@ -343,8 +369,8 @@ func init() {
 			p.Note = topo
 			return p
 		},
-		Oracle:      c07Oracle,
-		Components:  stdComponents,
+		Oracle:     c07Oracle,
+		Components: stdComponents,
 		Assumptions: []string{"the reference binder composes protojson (shared with the code under test) with its own path, query and selector handling", "query parameters are applied also when body is '*' (the statement lists them unconditionally)",
 			"whether a decimal like 1.0 fits an integer field is not probed; ill-typed values are clearly ill-typed (letters, overflow, sign)"},
 	})
